@@ -239,8 +239,14 @@ def _first(r):
     return ax, ("O" if ax.values.dtype.kind == "O" else ("f" if ax.values.dtype.kind == "f" else "i"))
 
 
+def _single(ax):
+    """a grouped axis with ONE member (what flatten() of a 1-D array returns): the same dimension name, the same labels - only the type of the Axis
+    object differs, so the array must answer like a fresh array over a plain axis"""
+    return isinstance(ax, MultiAxis) and len(ax.axes) == 1 and "," not in ax.name
+
+
 def _plain(r):
-    return isinstance(r, DimArray) and r.ndim >= 1 and not isinstance(r.axes[0], MultiAxis) and "," not in r.axes[0].name
+    return isinstance(r, DimArray) and r.ndim >= 1 and (not isinstance(r.axes[0], MultiAxis) or _single(r.axes[0])) and "," not in r.axes[0].name
 
 
 def _via_ds(r, rename):
@@ -394,7 +400,7 @@ MUTATORS = {"m_dims_dup": m_dims_dup, "m_dims_perm": m_dims_perm, "m_dims_dict_s
 
 def fresh_twin(r):
     """a freshly constructed array with the same values, labels and dims (grouped axes rebuilt by flatten of a fresh array)"""
-    if not any(isinstance(ax, MultiAxis) for ax in r.axes):
+    if not any(isinstance(ax, MultiAxis) and not _single(ax) for ax in r.axes):
         axes = [Axis(np.array(py(ax.values), dtype=ax.values.dtype) if ax.values.dtype != object else np.array(py(ax.values) + [None], dtype=object)[:-1], ax.name)
                 for ax in r.axes]
         t = DimArray(np.array(r.values, copy=True), axes=axes, _indexing=r._indexing)
@@ -403,7 +409,7 @@ def fresh_twin(r):
     # unflattened twin from the member axes, then the same grouping
     members, layout, shape = [], [], []
     for ax in r.axes:
-        if isinstance(ax, MultiAxis):
+        if isinstance(ax, MultiAxis) and not _single(ax):
             layout.append([m.name for m in ax.axes])
             for m in ax.axes:
                 members.append(Axis(np.array(py(m.values), dtype=m.values.dtype) if m.values.dtype != object else np.array(py(m.values) + [None], dtype=object)[:-1], m.name))
@@ -420,10 +426,29 @@ def fresh_twin(r):
     return t
 
 
+def _norm(x):
+    """a grouped axis with one member is observed as what it is for the user - an axis with that name and those labels"""
+    if isinstance(x, (list, tuple)):
+        return type(x)(_norm(o) for o in x)
+    if isinstance(x, DimArray) and any(_single(ax) for ax in x.axes):
+        axes = []
+        for ax in x.axes:
+            if _single(ax):
+                p = Axis(ax.values, ax.name)
+                p.attrs.update(ax.axes[0].attrs)
+                p.attrs.update(ax.attrs)
+                ax = p
+            axes.append(ax)
+        y = DimArray(x.values, axes=axes)
+        y.attrs.update(x.attrs)
+        return y
+    return x
+
+
 def _psnap(x):
     if isinstance(x, Raised):
         return ("raised", x.cls.__name__)
-    return common.snap(x)
+    return common.snap(_norm(x))
 
 
 def probes(r):
@@ -436,7 +461,7 @@ def probes(r):
     out["sum0"] = _psnap(call(r.sum, axis=0))
     out["T"] = _psnap(call(lambda: r.T if r.ndim <= 2 else r.transpose(*r.dims[::-1])))
     out["flatten_labels"] = _psnap(call(lambda: py(r.flatten().axes[0].values)))
-    out["members"] = _psnap(call(lambda: [[(m.name, py(m.values)) for m in ax.axes] if isinstance(ax, MultiAxis) else None for ax in r.axes]))
+    out["members"] = _psnap(call(lambda: [[(m.name, py(m.values)) for m in ax.axes] if isinstance(ax, MultiAxis) and not _single(ax) else None for ax in r.axes]))
     out["unflatten"] = _psnap(call(r.unflatten))
     if _plain(r) and r.axes[0].size >= 2:
         ax, kind = _first(r)
